@@ -12,7 +12,7 @@ theorem genObj_unfoldN (e : BEnv) (Γ : Ctx) (cfg : SerCfg) (f : Nat) (c : Class
     genObj e Γ cfg (f + 1) (.obj c fields) pns oq nl xt = (do
       let attrs ← nextAttribute cfg m fields (nl || m.nillable) xt
       let vals ← nextValue m fields
-      let body ← vals.mapM (genField e Γ cfg f (targetUri (resolveQ oq m)))
+      let body ← vals.mapM (genField e Γ cfg f (targetUri m.qname))
       return [Ev.start (resolveQ oq m)] ++ attrs ++ body.flatten ++ [Ev.end (resolveQ oq m)]) := by
   have hfetch : Γ.fetch c pns none = .ok m := by
     simp only [metaOf] at hm
@@ -261,36 +261,6 @@ theorem treesSax_eq_nil {ts : List Tree} (h : treesSax ts = []) : ts = [] := by
   | cons t r =>
     simp only [treesSax, List.append_eq_nil_iff] at h
     exact absurd h.1 (treeSax_ne_nil t)
-
-/-- a field value that emits a child element has an item -/
-theorem emitsChild_items {var : XmlVar} {x : Val} (hs : Shape var x) (h : emitsChild var x = true) :
-    itemsN var x ≠ [] := by
-  cases hs with
-  | none _ _ => simp [emitsChild] at h; simp [itemsN, h]
-  | prim p _ _ => simp [itemsN]
-  | obj c fs _ _ => simp [itemsN]
-  | list xs ht _ _ => simp [emitsChild, ht] at h; simpa [itemsN, ht] using h
-  | toks ys ht _ hys =>
-    cases ys with
-    | nil => simp [emitsChild, ht] at h; simp [itemsN, ht, h]
-    | cons a l =>
-      have := hys a (by simp)
-      cases a <;> simp [Val.isArray] at this <;> simp [itemsN, ht]
-  | seqItem ht hl hy =>
-    cases x with
-    | none => simp [emitsChild] at h; simp [itemsN, h]
-    | list xs => simp [Val.isArray] at hy
-    | prim p => simp [itemsN]
-    | obj c fs => simp [itemsN]
-    | any q t tl a cs => simp [itemsN]
-    | derived q v t => simp [itemsN]
-    | attrs a => simp [itemsN]
-  | tokLists yss ht hl hyss =>
-    cases yss with
-    | nil => simp [emitsChild, ht] at h; simp [itemsN, ht, h]
-    | cons a l =>
-      obtain ⟨ys, rfl⟩ := hyss a (by simp)
-      simp [itemsN, ht]
 
 /-! ### all element vars of an object -/
 
